@@ -40,6 +40,15 @@ type valKind struct {
 	// NoLoad: not part of the parallel-load stream (declares a function: the function table is
 	// process-wide by design, two racing first requests would both declare it — C10's business)
 	NoLoad bool
+	// boot catalogue (boot.go): Decl = top-level statements run ONCE when the server script boots,
+	// before the route is registered (values, functions, classes that exist before any request);
+	// Use = the handler closure's `use (...)` clause; Boot marks the generated kinds
+	Decl string
+	Use  string
+	Boot bool
+	// Cap: the kind is an instance of Model.ReqCap (a by-value closure capture of a flat value):
+	// compared with `vm_c11 cap gen …` too
+	Cap *capInfo
 }
 
 // top-level declarations shared by the routes
@@ -85,7 +94,17 @@ class VAppError extends Exception { public $extra; function __construct($m, $e) 
 
 const G = ` verif_gate($g); `
 
+var allValKinds []valKind
+
+// valKinds: the hand-written catalogue followed by the generated boot catalogue (boot.go).
 func valKinds() []valKind {
+	if allValKinds == nil {
+		allValKinds = append(baseValKinds(), bootKinds()...)
+	}
+	return allValKinds
+}
+
+func baseValKinds() []valKind {
 	k := []valKind{
 		// ---------------------------------------------------------------- closures
 		{Name: "clo-use-val", Site: true,
@@ -341,12 +360,16 @@ var valByName = valKindByName()
 func valRoute(k valKind) string {
 	pro := `$x = $req->input("x"); $g = $req->query()["g"]; $t = "";`
 	epi := `$res->header("X-Own", verif_str($x)); $res->write($t);`
-	h := fmt.Sprintf("function ($req, $res) {\n  %s\n  %s\n  %s\n}", pro, k.Body, epi)
+	use := ""
+	if k.Use != "" {
+		use = " use (" + k.Use + ")"
+	}
+	h := fmt.Sprintf("function ($req, $res)%s {\n  %s\n  %s\n  %s\n}", use, pro, k.Body, epi)
 	if k.Host == "method" {
 		cls := "VHost_" + strings.ReplaceAll(k.Name, "-", "_")
 		return fmt.Sprintf("class %s { public $tag = \"H\"; function wrap($s) { return \"{\" . $s . \"}\"; }\n function mount($server) { $server->get('/v/%s', %s); } }\n(new %s())->mount($server);\n", cls, k.Name, h, cls)
 	}
-	return fmt.Sprintf("$server->get('/v/%s', %s);\n", k.Name, h)
+	return fmt.Sprintf("%s$server->get('/v/%s', %s);\n", k.Decl, k.Name, h)
 }
 
 // valScript: one server hosting the routes of the given kinds (all if nil).
@@ -518,6 +541,7 @@ func (rn *runner) runValBatch(cases []valCase, stream string) {
 			return // the server still has parked goroutines: do not reuse it
 		}
 		rn.siteCorrespondence(cs, out, played)
+		rn.capCorrespondence(cs, out, played)
 		fails := judgeVals(solo, cs.Reqs, out, played)
 		if len(fails) > 0 {
 			// smallest replay: the case alone on a fresh server
@@ -638,7 +662,7 @@ func valX(i int, salt int) string { return strconv.Itoa(1000 + 100*i + salt%90 +
 func valExhaustive(known bool) []valCase {
 	var out []valCase
 	for ki, k := range valKinds() {
-		if (k.Known != "") != known {
+		if (k.Known != "") != known || k.Boot {
 			continue
 		}
 		seg := k.Gates + 1
@@ -657,21 +681,31 @@ func valExhaustive(known bool) []valCase {
 
 // valRandom: 2..5 requests over random kinds (same route with probability 1/2), random turns.
 func valRandom(r *vh.Rand) valCase {
-	var ks []valKind
+	var ks, bks []valKind
 	for _, k := range valKinds() {
 		if k.Known == "" {
-			ks = append(ks, k)
+			if k.Boot {
+				bks = append(bks, k)
+			} else {
+				ks = append(ks, k)
+			}
 		}
+	}
+	pick := func() valKind {
+		if len(bks) > 0 && r.Chance(40) { // boot catalogue (round 7)
+			return vh.Pick(r, bks)
+		}
+		return vh.Pick(r, ks)
 	}
 	n := r.Range(2, 5)
 	var cs valCase
 	var seg []int
-	first := vh.Pick(r, ks)
+	first := pick()
 	same := r.Bool()
 	for i := 0; i < n; i++ {
 		k := first
 		if !same {
-			k = vh.Pick(r, ks)
+			k = pick()
 		}
 		cs.Reqs = append(cs.Reqs, valReq{k.Name, strconv.Itoa(1000 + r.Intn(9000))})
 		seg = append(seg, k.Gates+1)
@@ -707,6 +741,7 @@ func valueStreams(rn *runner) {
 	}
 	vbatch(valExhaustive(false), "values", 64)
 	vbatch(valExhaustive(true), "values-known", 64)
+	vbatch(bootExhaustive(c.Thorough()), "boot", 64)
 	var rnd []valCase
 	for i := 0; i < c.N(400, 20000); i++ {
 		rnd = append(rnd, valRandom(c.Rand))
